@@ -142,6 +142,7 @@ class MomentumMPS:
         obj.uMPS_GS = hdf5_loader.load(subpath + 'GS_uMPS')
         obj.p = hdf5_loader.load(subpath + 'momentum')
         obj.n_sites = hdf5_loader.get_attr(h5gr, 'n_sites')
+        obj.dtype = np.result_type(*(X.dtype for X in obj._X))
         obj.uMPS_GS.test_sanity()
         return obj
 
